@@ -38,15 +38,15 @@ type nodeInst struct {
 }
 
 type pathInfo struct {
-	desc    map[string]string
-	nodes   []*nodeInst
-	calls   []string // callee names of successful calls, in order
-	ret     string   // description of the returned node
-	ok      bool
-	matches []string // token sets of successful match events, in order
-	events  []*Event
-	callArg map[*Event][]string // arguments of successful calls, described as of the time of the call
-	appended map[*Event]string // append event → what was appended, described at that point of the path
+	desc     map[string]string
+	nodes    []*nodeInst
+	calls    []string // callee names of successful calls, in order
+	ret      string   // description of the returned node
+	ok       bool
+	matches  []string // token sets of successful match events, in order
+	events   []*Event
+	callArg  map[*Event][]string // arguments of successful calls, described as of the time of the call
+	appended map[*Event]string   // append event → what was appended, described at that point of the path
 }
 
 func resolveDesc(desc map[string]string, v string) string {
